@@ -324,13 +324,13 @@ def eval_diagram_properties(results, want):
                 orc.ask(ii, I, q_from(c["depth"], c["value"], c["state"]))
             if meta["ct"] == 1 and fi.get("x") == "0" and "C08" in want:
                 orc.ask(ii, I, q_enum(k, v, [b]))
-            parsed.append((ii, I, meta, fi, cs, li, case))
+            parsed.append((ii, I, meta, fi, cs, li, case, lm))
     orc.run()
     fails = []
     stats = {"relaxed": 0, "relaxed_inexact": 0, "relaxed_merged_but_exact": 0, "restricted": 0, "restricted_truncated": 0, "exact": 0,
              "cutset_nodes": 0, "infeasible_roots": 0, "completions_checked_for_cover": 0, "crash": 0}
     nontriv = set()
-    for ii, I, meta, fi, cs, li, case in parsed:
+    for ii, I, meta, fi, cs, li, case, lm in parsed:
         k, b, v, path = meta["root"]; lb = meta["lb"]; ct = meta["ct"]; flv = meta["flv"]
         ctx = {"instance": I.line(), "case": case, "impl": li[:600], "flavour": FLV[flv], "type": CT[ct], "width": meta["w"], "lb": lb}
         if fi.get("status") != "ok":
@@ -372,7 +372,10 @@ def eval_diagram_properties(results, want):
                         fails.append(("C08", "i-exact", "cut-set node %s: depth differs from the number of decisions on its path" % c, ctx))
                     if c["depth"] <= k or (c["depth"] == k and c["state"] == [b]):
                         fails.append(("C08", "ii-progress", "cut-set node %s is not strictly deeper than the root sub-problem (depth %d)" % (c, k), ctx,
-                                      "pooled-longarc-subproblem-in-own-cutset" if (flv == 2 and I.notimp) else None))
+                                      # known finding D1 only where the MODEL of the unchanged code hands out the same node
+                                      "pooled-longarc-subproblem-in-own-cutset" if (flv == 2 and I.notimp and any(
+                                          (c["depth"], c["state"], c["value"]) == (m2["depth"], m2["state"], m2["value"])
+                                          for alt in split_alts(lm) for m2 in parse_cutset(parse_fields(alt).get("CS")))) else None))
                     cstar = Oracle.num(orc.get(ii, q_from(c["depth"], c["value"], c["state"])))
                     if cstar is not None and cstar > lb and c["ub"] < cstar:
                         fails.append(("C08", "iii-bound", "cut-set node %s has ub %d below its best completion %d (beats incumbent %d)" % (c, c["ub"], cstar, lb), ctx))
